@@ -126,7 +126,7 @@ class ApplySingle(Spec):
                  pos == If(a_P + 1 >= first, a_P + 1, first)]
         h.store(info, 'op_id', If(insert, pos, 0)); h.store(info, 'num_ops_added', If(insert, 1, 0)); h.store(info, 'output_tensor_id', fresh('new_tensor', I))
         # operators list after the call (insert_* 'skeleton-objects-and-order' / quantize_tensor frame)
-        new = fresh('ops_after', z3.ArraySort(I, Ref)); ARR_SIG[new.get_id()] = _canon_arr(S.ops0)
+        new = fresh('ops_after', z3.ArraySort(I, Ref)); ARR_SIG[new.decl().name()] = _canon_arr(S.ops0)
         p.facts.append(Schematic(1, lambda j: Implies(And(0 <= j, j < S.n), new[If(And(insert, j >= pos), j + 1, j)] == S.ops0[j]), 'post:operators-shifted'))
         h.store(S.ops, '$items:ref', new); h.store(S.ops, '$len', If(insert, S.n + 1, S.n))
         S.pos, S.insert, S.ops1 = pos, insert, new
@@ -143,7 +143,7 @@ class ApplySingle(Spec):
     def k_update_op_id_map(self, E, p, args, kw, node):
         S = self; h = p.heap; s, o, a = args[0].term, args[1].term, args[2].term
         E.emit(p, 'callsite:_update_op_id_map.requires-0<=original_op_id', And(o >= 0, s == S.s), node.lineno)
-        newO = fresh('orig_after', z3.ArraySort(I, I)); ARR_SIG[newO.get_id()] = _canon_arr(S.Oit)
+        newO = fresh('orig_after', z3.ArraySort(I, I)); ARR_SIG[newO.decl().name()] = _canon_arr(S.Oit)
         p.facts.append(Schematic(1, lambda k: Implies(And(0 <= k, k < S.n0), newO[k] == S.Oit[k] + If(k >= o, a, 0)), 'post:_update_op_id_map'))
         lst = h.new(p, 'newmap'); h.store(lst, '$items:int', newO); h.store(lst, '$len', S.n0)
         h.store(S.omaps, '$items:ref', z3.Store(items_r(h, S.omaps), S.s, lst)); S.newO = newO
